@@ -107,6 +107,17 @@ def run_spec(mod: Any, spec: Dict[str, Any], keep_events: bool = False) -> Outco
     return run_one(mod, spec, keep_events=keep_events)
 
 
+def _exit_child() -> None:
+    """Leave a forked child: run exit handlers (scratch directories are removed there), then exit hard."""
+    try:
+        import atexit
+
+        atexit._run_exitfuncs()
+    except BaseException:  # noqa: BLE001
+        pass
+    os._exit(0)
+
+
 def pristine_eval(mod: Any, spec: Dict[str, Any], timeout: float = 300.0) -> Optional[Dict[str, Any]]:
     """Execute *spec* in a forked child of this (pristine) process; return its verdict.
 
@@ -125,7 +136,7 @@ def pristine_eval(mod: Any, spec: Dict[str, Any], timeout: float = 300.0) -> Opt
             except Exception:  # noqa: BLE001
                 pass
         finally:
-            os._exit(0)
+            _exit_child()
 
     p = ctx.Process(target=child)
     p.start()
@@ -229,7 +240,7 @@ def _task_child(task: Tuple[Any, ...], conn: Any) -> None:
             pass
     finally:
         conn.close()
-        os._exit(0)
+        _exit_child()
 
 
 def _run_tasks(tasks: List[Tuple[Any, ...]], nworkers: int, errors: List[str]) -> List[Dict[str, Any]]:
